@@ -6,7 +6,8 @@ open SmsVerif SmsVerif.Framing
 def berr : BErr → String
   | .eof => "eof" | .unexpectedEOF => "ueof" | .readError => "readerr" | .badPrefix => "badprefix"
 
-/-- `frame nb <buf>` | `frame run <chunk,chunk,…>` | `frame blocked <data> <fail>` -/
+/-- `frame nb <buf>` | `frame run <chunk,chunk,…>` | `frame blocked <data> <fail>` |
+    `frame pair <streamA> <streamB> <readA> <readB> <first>` (the read sizes and who reads first do not enter the model) -/
 def handleFrame (toks : List String) : Option String := do
   match toks with
   | ["nb", h] =>
@@ -23,6 +24,11 @@ def handleFrame (toks : List String) : Option String := do
     pure (match r with
       | .ok fr => s!"ok {hexOfBytes fr} consumed={n}"
       | .error e => s!"err {berr e}")
+  | ["pair", ha, hb, _mrA, _mrB, _start] =>
+    let (ra, rb) := blockedPair (← bytesOfHex ha) (← bytesOfHex hb)
+    let render := fun (rs : List (Except BErr Bytes)) =>
+      ";".intercalate (rs.map fun | .ok fr => s!"ok {hexOfBytes fr}" | .error e => s!"err {berr e}")
+    pure s!"A={render ra} B={render rb}"
   | _ => none
 
 end SmsVerif.Driver
